@@ -187,14 +187,14 @@ def template_task(task):
             params.append(p)
         m.last_params = params
         ref = PG.Ref(ctx, params)
-        fa = ref.answers(progast, extra.get('vars', ()))
+        fa = ref.answers(extra.get('ref_prog') or progast, extra.get('vars', ()))
         if ref.truncated:
             raise NotEncodable('reference interpreter truncated')
-        if ref.infinite and mode != 'subset':
+        if ref.infinite and mode not in ('subset', 'covers'):
             raise NotEncodable('infinite program must be compared in subset mode')
         res = m.call(name, list(params) + [limit])
         ea = PG.engine_answers(m, res)
-        if len(ea) >= limit and mode != 'subset':
+        if len(ea) >= limit and mode not in ('subset', 'covers'):
             raise NotEncodable('answer limit reached')
         m.reify_report = reify_checks(m, res) if not extra.get('user') else None
         return params, ea, fa
@@ -202,6 +202,15 @@ def template_task(task):
     def on_path(r):
         ctx = r.ctx
         out['called'].update(r.machine.called)
+        if r.status == 'notenc' and mode == 'covers' and 'step bound' in r.detail:
+            # bounded fairness: the expected answers did not show up within the step bound
+            rr, model = ctx.query()
+            if rr == z3.sat:
+                pv = [H.model_int(model, p) for p in getattr(r.machine, 'last_params', [])] + [0] * nparams
+                add_issue('not-productive', 'the first %d answers are not produced within %d MIR steps (a fair interleaving produces them)' % (limit, r.machine.max_steps),
+                          pv[:nparams], 'timeout', None)
+            r.status = 'ok-flagged'
+            return
         if r.status in ('notenc', 'abort'):
             return
         if r.status == 'panic':
@@ -237,7 +246,7 @@ def template_task(task):
         # expected answers (independent of which wrong answers this executor's run happened to produce)
         def is_ground(t):
             return t[0] != 'var' and all(is_ground(x) for x in t[1:] if isinstance(x, tuple))
-        if mode != 'subset' and all(is_ground(a[0]) and not a[1] for a in fa) and all(not e[1] for e in ea):
+        if mode not in ('subset', 'covers') and all(is_ground(a[0]) and not a[1] for a in fa) and all(not e[1] for e in ea):
             rr, model = ctx.query()
             pv = [H.model_int(model, p) for p in params]
             exp = [norm_str(PG.show_term(a[0], model)) for a in fa]
@@ -265,6 +274,8 @@ def template_task(task):
         out['issues'].append((key, what, pv, kind, data))
 
     stats = interp.explore(mk, scenario, on_path=on_path, time_budget=900)
+    if mode == 'covers' and any(i[0] == 'not-productive' for i in out['issues']):
+        stats['notenc'] = max(0, stats['notenc'] - sum(v for k_, v in stats['notenc_reasons'].items() if 'step bound' in k_))
     out['stats'] = {k: stats[k] for k in ('paths', 'ok', 'panic', 'notenc', 'abort', 'solver_calls', 'steps', 'truncated', 'wall_s')}
     out['notenc_reasons'] = stats['notenc_reasons']
     return out
@@ -306,7 +317,7 @@ fn replay() {
 ''' % (prop, name, what.replace('\n', ' '), prop, path, PG.USER_RS, lets, run, check)
 
 
-def case_source(prop, name, progast, nparams, pv, kind, data, what, path, extra=None):
+def case_source(prop, name, progast, nparams, pv, kind, data, what, path, extra=None, limit=64):
     extra = extra or {}
     if extra.get('user'):
         return case_source_user(prop, name, progast, nparams, pv, kind, data, what, path, extra)
@@ -322,26 +333,30 @@ def case_source(prop, name, progast, nparams, pv, kind, data, what, path, extra=
         goals = goals + ['q == %s' % data[0]]
     body = ',\n        '.join(goals)
     if kind == 'instance':
-        check = '    let n = query.run().take(64).count();\n    assert_eq!(n > 0, %s, "q = %s must %sbe a solution");\n' % (
+        check = '    let n = query.run().take(LIMIT).count();\n    assert_eq!(n > 0, %s, "q = %s must %sbe a solution");\n' % (
             'true' if data[1] else 'false', data[0].replace('"', '\\"'), '' if data[1] else 'not ')
     elif kind == 'nopanic':
-        check = '    let _n = query.run().take(64).count();\n'
+        check = '    let _n = query.run().take(LIMIT).count();\n'
+    elif kind == 'timeout':
+        check = '    let n = query.run().take(LIMIT).count();\n    assert_eq!(n, LIMIT);\n'
     elif kind == 'reified':
         names = ', '.join('"%s"' % n for n in data)
-        check = ('    for r in query.run().take(64) {\n        let s = format!("{}", r.q);\n'
+        check = ('    for r in query.run().take(LIMIT) {\n        let s = format!("{}", r.q);\n'
                  '        for tok in s.split(|c: char| !(c.is_alphanumeric() || c == \'_\')) {\n'
                  '            assert!(![%s].contains(&tok), "answer `{}` mentions the program variable {}", s, tok);\n        }\n    }\n' % names)
     elif kind == 'ccount':
-        check = ('    let mut got: Vec<usize> = query.run().take(64).map(|r| r.q.constraints().count()).collect();\n'
+        check = ('    let mut got: Vec<usize> = query.run().take(LIMIT).map(|r| r.q.constraints().count()).collect();\n'
                  '    got.sort();\n    assert_eq!(got, vec![%s], "number of constraints reported per answer");\n' % ', '.join(str(x) for x in data))
     else:
         exp = ', '.join('"%s".to_string()' % e.replace('"', '\\"') for e in data)
         srt = '    got.sort();\n    expected.sort();\n' if kind != 'sequence' else ''
         if kind == 'subset':
             srt = '    got.retain(|g| !expected.contains(g));\n    expected.clear();\n'
+        if kind == 'covers':
+            srt = '    got.truncate(LIMIT);\n    expected.retain(|e| !got.contains(e));\n    got.clear();\n'
         check = ('    let re = |s: String| { let mut o = String::new(); let mut it = s.chars().peekable();\n'
                  '        while let Some(c) = it.next() { o.push(c); if c == \'_\' { if it.peek() == Some(&\'.\') { it.next(); while it.peek().map_or(false, |d| d.is_ascii_digit()) { it.next(); } } } } o };\n'
-                 '    let mut got: Vec<String> = query.run().take(64).map(|r| re(format!("{}", *r.q))).collect();\n'
+                 '    let mut got: Vec<String> = query.run().take(LIMIT).map(|r| re(format!("{}", *r.q))).collect();\n'
                  '    let mut expected: Vec<String> = vec![%s];\n%s    assert_eq!(got, expected);\n' % (exp, srt))
     return '''// Counterexample found by mirsym/z3 for property %s, template %s: %s
 // Replay: /verif/check %s --replay %s
@@ -354,6 +369,8 @@ use proto_vulcan::operator::{matche, matcha, matchu};
 use proto_vulcan::relation::{diseqfd, distinctfd, infd, infdrange, ltefd, ltfd, minusfd, plusfd, timesfd};
 use proto_vulcan::relation::clpz::plusz::plusz;
 use proto_vulcan::relation::clpz::timesz::timesz;
+use proto_vulcan::relation::always::always;
+use proto_vulcan::relation::never::never;
 use proto_vulcan::solver::{Solve, Solver};
 use proto_vulcan::state::State;
 use proto_vulcan::stream::Stream;
@@ -375,13 +392,26 @@ impl Solve<TU, TE> for Succ {
 pub fn succ(u: T, v: T) -> Goal<TU, TE> { Goal::dynamic(Rc::new(Succ { u, v, mode: 0 })) }
 pub fn succ_head(u: T, v: T) -> Goal<TU, TE> { Goal::dynamic(Rc::new(Succ { u, v, mode: 1 })) }
 
+const LIMIT: usize = %d;
+
 #[test]
 fn replay() {
+    // watchdog: a run that does not finish within 30 s counts as a failure (non-productive search)
+    let (tx, rx) = std::sync::mpsc::channel();
+    std::thread::spawn(move || { body(); let _ = tx.send(()); });
+    match rx.recv_timeout(std::time::Duration::from_secs(30)) {
+        Ok(()) => (),
+        Err(std::sync::mpsc::RecvTimeoutError::Timeout) => panic!("the query did not produce its first {} answers within 30 s", LIMIT),
+        Err(_) => panic!("the query panicked"),
+    }
+}
+
+fn body() {
 %s    let query = proto_vulcan_query!(|q| {
         %s
     });
 %s}
-''' % (prop, name, what.replace('\n', ' '), prop, path, lets, body, check)
+''' % (prop, name, what.replace('\n', ' '), prop, path, limit, lets, body, check)
 
 
 def run_templates(rep, prop, templates, tag, window=3):
@@ -414,7 +444,7 @@ def run_templates(rep, prop, templates, tag, window=3):
             case = os.path.join(VERIF, 'replay', 'cases', '%s-%s.rs' % (prop, re.sub(r'[^A-Za-z0-9]+', '_', fullkey)))
             what_full = '%s with parameters %s: %s' % (src[:200], pv, what)
             os.makedirs(os.path.dirname(case), exist_ok=True)
-            open(case, 'w').write(case_source(prop, n, p, k, pv, kind, data, what_full, case, ex))
+            open(case, 'w').write(case_source(prop, n, p, k, pv, kind, data, what_full, case, ex, li if mo in ('subset', 'covers') else 64))
             outc = kanirun.replay_case(case)
             rep.extra['replayed'] = rep.extra.get('replayed', 0) + 1
             reproduced = any(okk for okk, _ in outc.values())
